@@ -25,6 +25,7 @@ RULE += (' Windows are also given as numpy integers; sources also written to dis
 RULE += (' A share of the gridded files is the IOAPI-class object the CAMx gridded READER (uamiv) returns for an image written by the independent codec (whole-hour steps up to 168 h, ETFLAG present, header completed by the class).')
 RULE += (' After a time window the same source object is re-dated (flags and start edited consistently) and windowed again: the second window is referenced to the new times.')
 RULE += (" Half of the IOAPI files opened from disk are written here with netCDF4 directly the way the Models-3 I/O API library writes them (netCDF classic 64-bit offset, int32 header integers, float64 grid reals, float32 VGLVLS, TFLAG first, TSTEP the record dimension), independent of the library's writers.")
+RULE += (' Windows also start further back than the axis is long and stop beyond its end (python slice semantics: clamped).')
 ASSUMPTIONS = [
     'time oracle = integer YYYYJJJ/HHMMSS arithmetic in the harness (not '
     'getTimes)',
@@ -48,7 +49,7 @@ def gen_window(rng, n):
         return {'i': int(rng.integers(-n, n))}
     a = int(rng.integers(0, n))
     b = int(rng.integers(a + 1, n + 1))
-    form = int(rng.integers(6))
+    form = int(rng.integers(8))
     if form == 0:
         s = [a, b, None]
     elif form == 1:
@@ -59,8 +60,15 @@ def gen_window(rng, n):
         s = [None, None, None]
     elif form == 4:
         s = [a - n, b if b < n else None, None]     # negative start
-    else:
+    elif form == 5:
         s = [a, a + 1, 1]
+    elif form == 6:
+        # a start further back than the axis is long (clamped to the first
+        # cell, as for any python sequence)
+        s = [-(n + 1 + int(rng.integers(0, 100))), b, None]
+    else:
+        # a stop beyond the end
+        s = [a, n + 1 + int(rng.integers(0, 100)), None]
     return {'s': s}
 
 
